@@ -1161,6 +1161,46 @@ pub fn sample_one<S: Strategy>(strat: &S, seed: u64) -> S::Value {
         .current()
 }
 
+/// Fuzz driver body shared by all targets: run the property on a case decoded from the fuzzer's
+/// bytes; abort (so that the fuzzer saves the input) on a violation that is not a known finding.
+/// The case is also written to `replays/<id>/violation-fuzz.json` so that the regular replay
+/// command reproduces it.
+pub fn fuzz_case<T, F>(property: &'static str, kind: &str, case: &T, f: F)
+where
+    T: Serialize,
+    F: FnOnce(&T, &mut CaseInfo) -> Result<(), Fail>,
+{
+    static HOOK: std::sync::Once = std::sync::Once::new();
+
+    HOOK.call_once(install_quiet_panic_hook);
+
+    let mut info = CaseInfo::default();
+
+    let res = match catch(|| f(case, &mut info)) {
+        Ok(r) => r,
+        Err(p) => {
+            let site = panic_site(&p);
+
+            if is_repo_site(&site) { Err(Fail::new(format!("{property}|panic|{site}"), p)) } else { Err(Fail::new(format!("harness-panic|{site}"), p)) }
+        }
+    };
+
+    if let Err(fail) = res {
+        if fail.signature.starts_with("harness") || KnownFindings::load().known(property, &fail.signature).is_some() {
+            return;
+        }
+
+        let dir = format!("{VERIF_ROOT}/replays/{property}");
+        let _ = std::fs::create_dir_all(&dir);
+        let path = format!("{dir}/violation-fuzz.json");
+        let _ = std::fs::write(&path, serde_json::to_string(&json!({"property": property, "kind": kind, "signature": fail.signature, "message": fail.message, "case": case})).unwrap_or_default());
+
+        eprintln!("violation [{property}] {}: {}", fail.signature, fail.message);
+        println!("VIOLATION property={property} replay={path}");
+        std::process::abort();
+    }
+}
+
 /// Load a replay file and return `(kind, case)`.
 pub fn load_replay<T: DeserializeOwned>(path: &std::path::Path) -> (String, T) {
     let s = std::fs::read_to_string(path).unwrap_or_else(|e| {
